@@ -24,7 +24,7 @@ RULE = ('Seeded histories of 2..8 operations on a directory with <= 3 paths: put
 ASSUMPTIONS = ['fault-free by statement: no crash / truncation is injected here', 'SED values are compared within 1e-12 relative (SED.read multiplies and divides by nu even when the unit is unchanged); cube and convolved files exactly',
                'for an SED written without apertures only the single row of values is required (apertures need not come back as None)']
 PROBES = ['overwrite_other_shape', 'sed_asc_written', 'sed_desc_written', 'cube_no_unc', 'cube_no_apertures', 'cube_memmap_read', 'cube_get_sed',
-          'read_order_wav', 'read_order_nu', 'unit_erg', 'unit_jy', 'conv_no_apertures', 'stale_memmap_reader', 'sed_no_apertures', 'gz_path', 'gz_sibling_present', 'read_in_other_unit', 'uncertainties_in_other_unit', 'cube_get_sed_twice', 'name_at_other_position_in_earlier_cube', 'apertures_not_increasing']
+          'read_order_wav', 'read_order_nu', 'unit_erg', 'unit_jy', 'conv_no_apertures', 'stale_memmap_reader', 'sed_no_apertures', 'gz_path', 'gz_sibling_present', 'read_in_other_unit', 'uncertainties_in_other_unit', 'cube_get_sed_twice', 'name_at_other_position_in_earlier_cube', 'apertures_not_increasing', 'axis_given_as_frequencies', 'axis_in_other_length_unit']
 
 
 def budgets(tier):
@@ -40,6 +40,8 @@ def _gen_obj(rng, kind):
          'unit': rng.choice(UNITS) if kind != 'conv' else 'mJy', 'seed': rng.randrange(1 << 30), 'dist': float('%.4g' % (10 ** rng.uniform(-1, 1)))}
     # uncertainties may be stored in another unit of the same family than the values (each extension carries its own unit)
     o['unc_unit'] = rng.choice(['mJy', 'Jy']) if (o['unit'] in ('mJy', 'Jy') and kind != 'conv' and rng.random() < 0.5) else o['unit']
+    # the spectral axis may be handed over as wavelengths in any length unit or as frequencies in any frequency unit
+    o['axis'] = rng.choice([None, None, None, 'Angstrom', 'm', 'Hz', 'GHz', 'THz'])
     # the apertures of the object the user builds need not be in increasing order
     o['ap_order'] = rng.choice(['asc', 'asc', 'desc', 'shuffled'])
     if rng.random() < 0.7:
@@ -141,12 +143,17 @@ def _put(path, R, overwrite):
     from sedfitter.convolved_fluxes import ConvolvedFluxes
     o = R.o
     unit = _unit(o['unit'])
+    ax = o.get('axis')
     if o['kind'] == 'sed':
         s = SED()
         s.name = R.names[0]
         s.distance = o['dist'] * u.kpc
         s.wav = R.wav * u.micron
         s.nu = s.wav.to(u.Hz, equivalencies=u.spectral())
+        if ax in ('Angstrom', 'm'):
+            s.wav = s.wav.to(u.Unit(ax))
+        elif ax in ('GHz', 'THz'):
+            s.nu = s.nu.to(u.Unit(ax))
         if R.aps is not None:
             s.apertures = R.aps * u.au
         s.flux = R.val[0] * unit
@@ -156,7 +163,12 @@ def _put(path, R, overwrite):
         c = SEDCube()
         c.names = np.array(R.names)
         c.distance = o['dist'] * u.kpc
-        c.wav = R.wav * u.micron
+        if ax in ('Hz', 'GHz', 'THz'):
+            c.nu = (R.wav * u.micron).to(u.Unit(ax), equivalencies=u.spectral())
+        elif ax in ('Angstrom', 'm'):
+            c.wav = (R.wav * u.micron).to(u.Unit(ax))
+        else:
+            c.wav = R.wav * u.micron
         if R.aps is not None:
             c.apertures = R.aps * u.au
         c.val = R.val * unit
@@ -178,7 +190,7 @@ def _match(w, ref_wav, tol):
 def _check_cube(r, R, order, out, what):
     from astropy import units as u
     w = r.wav.to(u.micron).value
-    idx, ok = _match(w, R.wav, 0)
+    idx, ok = _match(w, R.wav, 1e-12 if R.o.get('axis') else 0)
     if not ok:
         return 'wavelengths read back %s, stored %s' % (w, R.wav)
     if len(w) > 1 and not (np.all(np.diff(w) > 0) if order == 'wav' else np.all(np.diff(w) < 0)):
@@ -231,6 +243,10 @@ def _execute(sc, sim, out):
                 out.violate('write-failed', '%s raised %s: %s' % (what, pipe.exc_name(r), r[1]), key='%s/%s@%s' % (o['kind'], pipe.exc_name(r), pipe.where(r[1]) if r[0] == 'exc' else ''))
                 break
             store[st['path']] = R
+            if o.get('axis') in ('Hz', 'GHz', 'THz') and o['kind'] == 'cube':
+                out.probe('axis_given_as_frequencies')
+            if o.get('axis') in ('Angstrom', 'm'):
+                out.probe('axis_in_other_length_unit')
             if R.aps is not None and len(R.aps) > 1 and np.any(np.diff(R.aps) < 0):
                 out.probe('apertures_not_increasing')
             if st['path'].endswith('.gz'):
@@ -349,7 +365,7 @@ def _execute(sc, sim, out):
                     break
                 sd = rs[1]
                 w = sd.wav.to(u.micron).value
-                idx, ok = _match(w, R.wav, 0)
+                idx, ok = _match(w, R.wav, 1e-12 if o.get('axis') else 0)
                 out.compared('cube-sed-cells', int(R.val[k].size))
                 if not ok or not np.array_equal(np.asarray(sd.flux.value, float), R.val[k][ia][:, idx]):
                     msg = 'get_sed(%s) does not return the SED that was put in' % R.names[k]
@@ -412,6 +428,9 @@ def lowerings(sc, viol=None):
             o = st['obj']
             if o.get('names'):
                 yield dict(sc, steps=sc['steps'][:i] + [dict(st, obj={k_: v_ for k_, v_ in o.items() if k_ != 'names'})] + sc['steps'][i + 1:])
+            for key_ in ('axis', 'ap_order'):
+                if o.get(key_) not in (None, 'asc'):
+                    yield dict(sc, steps=sc['steps'][:i] + [dict(st, obj={k_: v_ for k_, v_ in o.items() if k_ != key_})] + sc['steps'][i + 1:])
             for key, val in (('n_models', 1), ('n_ap', 1), ('n_ap', 2), ('n_wav', 2), ('n_wav', 3), ('unit', 'mJy'), ('has_unc', True), ('asc', False), ('has_ap', True)):
                 if o[key] != val and not (key == 'n_wav' and (o['kind'] == 'conv' or o['n_wav'] < val)) and not (key == 'n_ap' and o['n_ap'] < val) \
                         and not (key == 'has_ap' and False) and not (key == 'has_unc' and o['kind'] != 'cube'):
